@@ -71,10 +71,32 @@ def audit(pid):
             out['seeds'].append({'seed': name, 'exit': rc, 'report': first})
         finally:
             shutil.rmtree(tmp, ignore_errors=True)
+    # behaviour-preserving refactorings: the check must stay silent (run a few at a time)
+    bd = os.path.join(HERE, 'benign')
+    names = sorted(os.listdir(bd)) if os.path.isdir(bd) else []
+
+    def one(name):
+        patch = os.path.join(bd, name, 'patch.diff')
+        tmp = _scratch()
+        try:
+            subprocess.run(['git', 'init', '-q'], cwd=tmp)
+            if subprocess.run(['git', 'apply', patch], cwd=tmp, capture_output=True).returncode:
+                return {'patch': name, 'result': 'patch does not apply to the current tree'}
+            rc, first = _run(pid, tmp)
+            return {'patch': name, 'exit': rc, 'report': first}
+        finally:
+            shutil.rmtree(tmp, ignore_errors=True)
+    from concurrent.futures import ThreadPoolExecutor
+    with ThreadPoolExecutor(max_workers=4) as ex:
+        out['benign_refactorings'] = list(ex.map(one, names))
     br = [v for v in out['variants'] if v.get('kind') == 'break' and 'exit' in v]
     bn = [v for v in out['variants'] if v.get('kind') == 'benign' and 'exit' in v]
     out['summary'] = {'breaking_variants': len(br), 'breaking_detected': sum(1 for v in br if v['exit'] == 1),
                       'benign_variants': len(bn), 'benign_silent': sum(1 for v in bn if v['exit'] == 0),
                       'seeded_changes': len([s_ for s_ in out['seeds'] if 'exit' in s_]),
-                      'seeded_detected': sum(1 for s_ in out['seeds'] if s_.get('exit') == 1)}
+                      'seeded_detected': sum(1 for s_ in out['seeds'] if s_.get('exit') == 1),
+                      'benign_refactorings': len([b for b in out['benign_refactorings'] if 'exit' in b]),
+                      'benign_refactorings_silent': sum(1 for b in out['benign_refactorings'] if b.get('exit') == 0),
+                      'benign_refactorings_false_alarm': sum(1 for b in out['benign_refactorings'] if b.get('exit') == 1),
+                      'benign_refactorings_not_analysable': sum(1 for b in out['benign_refactorings'] if b.get('exit') == 2)}
     return out
